@@ -2,6 +2,7 @@ package main
 
 import (
 	"fmt"
+	"os"
 	"strings"
 	"time"
 
@@ -10,6 +11,7 @@ import (
 
 // pParams sizes a parser-world check.
 type pParams struct {
+	batches  int // independent worlds (each built and simulated in turn)
 	grammars int
 	inputs   int
 	optSets  int
@@ -42,109 +44,134 @@ func runParserProp(pp *pProp, tier string) int {
 	p := pp.tier(tier)
 	sc := newScratch(strings.ToLower(pp.id))
 	_, pigeon := buildPigeon(sc)
-	r := newRng(seed, hashLabel(pp.id))
-	var specs []*genParser
-	for i := 0; len(specs) < p.grammars && i < 20*p.grammars; i++ {
-		gp := drawSpec(r, fmt.Sprintf("p%03d", len(specs)), pp.bias)
-		if pp.accept != nil && !pp.accept(gp) {
-			continue
-		}
-		specs = append(specs, gp)
-	}
-	pw := buildParserWorld(sc, pigeon, specs, pp.race)
 	rep := newReporter(pp.id)
 	env := goEnv()
 	if pp.race {
 		env = append(env, "GORACE=halt_on_error=1 exitcode=66")
 	}
-
-	var reqs []*parsersim.Request
-	var owner []*genParser
-	for _, gp := range pw.parsers {
-		for _, rq := range pp.mkReqs(r, gp, p) {
-			reqs = append(reqs, rq)
-			owner = append(owner, gp)
-		}
-	}
-	to := pp.timeout
-	if to == 0 {
-		to = 120 * time.Second
-	}
-	outs := runParserCases(pw, reqs, to, env, pp.restart)
-
-	runs, cases := 0, 0
+	runs, cases, grammars := 0, 0, 0
 	distinct := map[string]bool{}
 	var samples []any
 	nviol := 0
-	for i, o := range outs {
-		gp := owner[i]
-		cases++
-		if o.Status != "ok" {
-			class := "driver-" + o.Status
-			msg := fmt.Sprintf("the simulation child %s while running %s: %s", o.Status, reqs[i].ID, firstLine(lastFatal(o.Detail)))
-			if strings.Contains(o.Detail, "DATA RACE") {
-				class = "data-race"
-				ex := raceExcerpt(o.Detail)
-				msg = "the Go race detector reported a data race under the simulated schedule:\n" + ex
-				if !strings.Contains(ex, "/pw/p") && !strings.Contains(ex, "/pw-race/p") {
-					// both stacks inside the harness: our defect, never a verdict
-					fatalHarness("race report without a frame in a generated parser (harness race):\n%s\n---- raw ----\n%s", ex, o.Detail)
-				}
-			}
-			v := &violation{Property: pp.id, Class: class, Message: msg,
-				Attrs: map[string]string{"class": class, "dedupe": class + "|" + gp.Name}, Seed: seed, Case: reqs[i].ID, Kind: "parser",
-				Replay: &parserReplay{Grammar: gp.G, Text: gp.Text, Flags: gp.Flags, Request: reqs[i], Race: pp.race, Expected: class}}
-			nviol++
-			rep.add(v)
-			continue
-		}
-		runs += o.Resp.Runs
-		if pp.nontriv == nil || pp.nontriv(o.Resp) {
-			if pp.dkey != nil {
-				distinct[pp.dkey(reqs[i], o.Resp)] = true
-			} else {
-				distinct[fmt.Sprintf("%s|%q|%s", gp.Text, reqs[i].Call.Input, mustJSON(reqs[i].Call.Opts))] = true
-			}
-		}
-		if len(samples) < 4 && o.Resp.Sample != nil && i%(len(outs)/4+1) == 0 {
-			samples = append(samples, map[string]any{"case": o.Resp.Sample, "grammar": specSummary(gp)["grammar"]})
-		}
-		seenClass := map[string]bool{}
-		for _, v := range o.Resp.Violations {
-			nviol++
-			if seenClass[v.Class] {
+	stats := map[string]int{}
+	var pw *parserWorld
+	nb := p.batches
+	if nb < 1 {
+		nb = 1
+	}
+	for batch := 0; batch < nb; batch++ {
+		// every batch is an independent world built from its own sub-stream of the seed
+		r := newRng(seed, hashLabel(pp.id), uint64(batch))
+		var specs []*genParser
+		for i := 0; len(specs) < p.grammars && i < 20*p.grammars; i++ {
+			gp := drawSpec(r, fmt.Sprintf("p%03d", len(specs)), pp.bias)
+			if pp.accept != nil && !pp.accept(gp) {
 				continue
 			}
-			seenClass[v.Class] = true
-			attrs := v.Attrs
-			if attrs == nil {
-				attrs = map[string]string{"class": v.Class}
+			specs = append(specs, gp)
+		}
+		if pw != nil {
+			os.RemoveAll(pw.dir)
+			os.Remove(pw.bin)
+		}
+		pw = buildParserWorld(sc, pigeon, specs, pp.race)
+		grammars += len(pw.parsers)
+
+		var reqs []*parsersim.Request
+		var owner []*genParser
+		for _, gp := range pw.parsers {
+			for _, rq := range pp.mkReqs(r, gp, p) {
+				if nb > 1 {
+					rq.ID = fmt.Sprintf("b%d-%s", batch, rq.ID)
+				}
+				reqs = append(reqs, rq)
+				owner = append(owner, gp)
 			}
-			if pp.attrs != nil {
-				pp.attrs(gp, reqs[i], &v, attrs)
+		}
+		to := pp.timeout
+		if to == 0 {
+			to = 120 * time.Second
+		}
+		outs := runParserCases(pw, reqs, to, env, pp.restart)
+		for k, v := range summariseStats(outs) {
+			if strings.HasPrefix(k, "max_") {
+				if v > stats[k] {
+					stats[k] = v
+				}
+			} else {
+				stats[k] += v
 			}
-			if attrs["dedupe"] == "" {
-				attrs["dedupe"] = v.Class + "|" + attrs["memoize"] + "|" + attrs["recover"] + "|" + attrs["optimized"]
+		}
+
+		for i, o := range outs {
+			gp := owner[i]
+			cases++
+			if o.Status != "ok" {
+				class := "driver-" + o.Status
+				msg := fmt.Sprintf("the simulation child %s while running %s: %s", o.Status, reqs[i].ID, firstLine(lastFatal(o.Detail)))
+				if strings.Contains(o.Detail, "DATA RACE") {
+					class = "data-race"
+					ex := raceExcerpt(o.Detail)
+					msg = "the Go race detector reported a data race under the simulated schedule:\n" + ex
+					if !strings.Contains(ex, "/pw/p") && !strings.Contains(ex, "/pw-race/p") {
+						// both stacks inside the harness: our defect, never a verdict
+						fatalHarness("race report without a frame in a generated parser (harness race):\n%s\n---- raw ----\n%s", ex, o.Detail)
+					}
+				}
+				v := &violation{Property: pp.id, Class: class, Message: msg,
+					Attrs: map[string]string{"class": class, "dedupe": class + "|" + gp.Name}, Seed: seed, Case: reqs[i].ID, Kind: "parser",
+					Replay: &parserReplay{Grammar: gp.G, Text: gp.Text, Flags: gp.Flags, Request: reqs[i], Race: pp.race, Expected: class}}
+				nviol++
+				rep.add(v)
+				continue
 			}
-			pv := &violation{Property: pp.id, Class: v.Class, Message: v.Msg, Attrs: attrs, Seed: seed, Case: reqs[i].ID, Kind: "parser"}
-			if rep.classify(pv) == "" && len(rep.fresh) < 6 {
-				mreq, mv := confirmAndMinimise(pw, *reqs[i], v, env)
-				if mreq == nil {
-					fmt.Printf("NOTE: %s %s in %s did not reproduce in a fresh process; dropped\n", pp.id, v.Class, reqs[i].ID)
+			runs += o.Resp.Runs
+			if pp.nontriv == nil || pp.nontriv(o.Resp) {
+				if pp.dkey != nil {
+					distinct[pp.dkey(reqs[i], o.Resp)] = true
+				} else {
+					distinct[fmt.Sprintf("%s|%q|%s", gp.Text, reqs[i].Call.Input, mustJSON(reqs[i].Call.Opts))] = true
+				}
+			}
+			if len(samples) < 4 && o.Resp.Sample != nil && i%(len(outs)/4+1) == 0 {
+				samples = append(samples, map[string]any{"case": o.Resp.Sample, "grammar": specSummary(gp)["grammar"]})
+			}
+			seenClass := map[string]bool{}
+			for _, v := range o.Resp.Violations {
+				nviol++
+				if seenClass[v.Class] {
 					continue
 				}
-				pv.Message = mv.Msg + fmt.Sprintf(" [grammar %s flags %v input %q opts %s]", strings.TrimSpace(specSummary(gp)["grammar"].(string)), gp.Flags, mreq.Call.Input, mustJSON(mreq.Call.Opts))
-				if len(mv.Detail) > 0 {
-					pv.Message += "\n  detail: " + string(mustJSON(mv.Detail))
+				seenClass[v.Class] = true
+				attrs := v.Attrs
+				if attrs == nil {
+					attrs = map[string]string{"class": v.Class}
 				}
-				pv.Replay = &parserReplay{Grammar: gp.G, Text: gp.Text, Flags: gp.Flags, Request: mreq, Race: pp.race, Expected: v.Class}
-			} else {
-				pv.Replay = &parserReplay{Grammar: gp.G, Text: gp.Text, Flags: gp.Flags, Request: reqs[i], Race: pp.race, Expected: v.Class}
+				if pp.attrs != nil {
+					pp.attrs(gp, reqs[i], &v, attrs)
+				}
+				if attrs["dedupe"] == "" {
+					attrs["dedupe"] = v.Class + "|" + attrs["memoize"] + "|" + attrs["recover"] + "|" + attrs["optimized"]
+				}
+				pv := &violation{Property: pp.id, Class: v.Class, Message: v.Msg, Attrs: attrs, Seed: seed, Case: reqs[i].ID, Kind: "parser"}
+				if rep.classify(pv) == "" && len(rep.fresh) < 6 {
+					mreq, mv := confirmAndMinimise(pw, *reqs[i], v, env)
+					if mreq == nil {
+						fmt.Printf("NOTE: %s %s in %s did not reproduce in a fresh process; dropped\n", pp.id, v.Class, reqs[i].ID)
+						continue
+					}
+					pv.Message = mv.Msg + fmt.Sprintf(" [grammar %s flags %v input %q opts %s]", strings.TrimSpace(specSummary(gp)["grammar"].(string)), gp.Flags, mreq.Call.Input, mustJSON(mreq.Call.Opts))
+					if len(mv.Detail) > 0 {
+						pv.Message += "\n  detail: " + string(mustJSON(mv.Detail))
+					}
+					pv.Replay = &parserReplay{Grammar: gp.G, Text: gp.Text, Flags: gp.Flags, Request: mreq, Race: pp.race, Expected: v.Class}
+				} else {
+					pv.Replay = &parserReplay{Grammar: gp.G, Text: gp.Text, Flags: gp.Flags, Request: reqs[i], Race: pp.race, Expected: v.Class}
+				}
+				rep.add(pv)
 			}
-			rep.add(pv)
 		}
-	}
-	stats := summariseStats(outs)
+	} // batches
 	wall := since(start)
 	fk := map[string]int{}
 	if pp.faults != nil {
@@ -157,7 +184,8 @@ func runParserProp(pp *pProp, tier string) int {
 			"rule":                    pp.rule,
 			"samples":                 samples,
 			"cases":                   cases,
-			"grammars":                len(pw.parsers),
+			"grammars":                grammars,
+			"batches":                 nb,
 			"stats":                   stats,
 			"runs_per_hour":           perHour(runs, wall),
 			"simulated_time":          "no wall clock in the parser; logical time = expression ticks and instrumentation steps",
@@ -172,7 +200,7 @@ func runParserProp(pp *pProp, tier string) int {
 	}
 	writeEvidence(ev)
 	code := rep.finish()
-	fmt.Printf("%s %s: %d grammars, %d cases, %d simulated parses, %d violations before dedup, %.1fs\n", pp.id, tier, len(pw.parsers), cases, runs, nviol, wall)
+	fmt.Printf("%s %s: %d grammars, %d cases, %d simulated parses, %d violations before dedup, %.1fs\n", pp.id, tier, grammars, cases, runs, nviol, wall)
 	return code
 }
 
